@@ -91,6 +91,8 @@ class Model(object):
         a = op[1] if len(op) > 1 else 0
         b = op[2] if len(op) > 2 else 0
         text = op[3] if len(op) > 3 else ""
+        if name.startswith("leak_"):
+            return self.op_leak(name[5:], a, b, text)
         f = getattr(self, "op_" + name, None)
         if f is None:
             raise Invalid("unknown op " + name)
@@ -261,6 +263,23 @@ class Model(object):
         if self.driver != "py":
             raise Invalid("python only")
         return self.expect(None)
+
+    def op_leak(self, inner, a, b, text):
+        """Python: repeat a call that creates nothing six times; heap growth is judged."""
+        if self.driver != "py":
+            raise Invalid("python only")
+        import copy
+        snap = copy.deepcopy(self.__dict__)
+        op = [inner, a, b] + ([text] if text else [])
+        self.apply(op)  # must be valid ...
+        after = self.expect(None)
+        self.__dict__.update(snap)
+        before = self.expect(None)
+        if (before["live"], before["hand"]) != (after["live"], after["hand"]):
+            raise Invalid("op changes the model state")
+        e = self.expect(None)
+        e["grow_check"] = True
+        return e
 
     def op_nomem(self, a, _b, _t):
         if self.driver != "py":
@@ -446,6 +465,9 @@ def lengths(rng):
 def gen_op(rng, model, enabled, uniq):
     """Draw one op that is valid in the current model state (or None)."""
     name = rng.choice(enabled)
+    if name.startswith("leak_"):
+        inner = gen_op(rng, model, [name[5:]], uniq)
+        return None if inner is None else ["leak_" + inner[0]] + inner[1:]
     s = rng.randrange(NH)
     t = rng.randrange(NH)
     if name in ("item_val", "make_item", "copy_item", "item_set", "make_box", "box_new"):
@@ -503,7 +525,10 @@ def gen_op(rng, model, enabled, uniq):
     return None
 
 
-PY_ONLY = ["box_delete", "bad_vec_sum", "bad_arg", "nomem", "bad_arr_sum"]
+LEAKABLE = ["item_value", "item_label", "use_item", "sum_items", "box_value", "str_ref", "str_val", "str_lib",
+            "str_in", "str_out", "str_inout", "char_out", "char_ret", "vec_sum", "vec_iota", "vec_alloc", "vec_ret",
+            "arr_lib", "arr_sum", "bad_vec_sum", "bad_arg", "bad_arr_sum"]
+PY_ONLY = ["box_delete", "bad_vec_sum", "bad_arg", "nomem", "bad_arr_sum"] + ["leak_" + n for n in LEAKABLE]
 # char_inout: the Python wrapper hands the str object's own UTF-8 buffer to the library, which
 # upper-cases it in place and thereby corrupts interned strings of the interpreter (a C03 defect;
 # it would make later *values* wrong, so the op is not generated for Python)
